@@ -1156,6 +1156,34 @@ func ruleEOFL(c *Ctx) {
 			return true
 		}
 		nCons++
+		// the end-of-input marker (-1) is never consumed: the driver cannot advance past the end, so a
+		// "consume" answer to it is repeated for ever. Wanted: a lower bound on the rune among the
+		// conditions of this return (r >= <table word> / r >= 0 / r != -1)
+		bounded := false
+		for _, fct := range pathConds(info, par, rs) {
+			l, op, rr, ok := cmpFact(fct.e, !fct.neg)
+			if !ok {
+				continue
+			}
+			lIsR, rIsR := usesObj(info, stripConv(info, l)) == runeParam, usesObj(info, stripConv(info, rr)) == runeParam
+			switch {
+			case lIsR && (op == token.GEQ || op == token.GTR) && nonNegative(info, rr, op == token.GTR):
+				bounded = true
+			case rIsR && (op == token.LEQ || op == token.LSS) && nonNegative(info, l, op == token.LSS):
+				bounded = true
+			case (lIsR || rIsR) && op == token.NEQ:
+				other := rr
+				if rIsR {
+					other = l
+				}
+				if v, ok := constInt(info, other); ok && v == -1 {
+					bounded = true
+				}
+			}
+		}
+		c.check(bounded, "EOFL-1", "template/PushRune/consume-not-end-of-input", ti.Pos(rs.Pos()),
+			"a rune is consumed only under a lower bound (it lies in a range of the table): the end-of-input marker -1 is never consumed",
+			"a rune is consumed on a path with no lower bound on it: the end-of-input marker (-1) can be answered with `consume`, which the driver repeats for ever (ReadToken never returns, EOF is never reached)")
 		sets := fieldSets(ti, blockOf(rs), rs)
 		c.check(sets[flag.Name()] == "true", "EOFL-1", "template/PushRune/consume-sets-flag", ti.Pos(rs.Pos()),
 			"every `return _lexerConsume` is preceded by "+flag.Name()+" = true", "a rune is consumed without recording it in "+flag.Name()+": the input could end inside a token and be reported as EOF")
@@ -1304,4 +1332,20 @@ func checkStackOps(c *Ctx, rule string, ti *TmplInstance) {
 		})
 		c.check(ok, rule, "template/_Stack.Peek", ti.Pos(fd.Pos()), "Peek(n) returns the element n below the top", "Peek(n) does not return element len-n-1")
 	}
+}
+
+
+// nonNegative: e is known to be >= 0 (strict: the comparison is r > e, so e >= -1 suffices): a
+// conversion of an unsigned value, a non-negative constant.
+func nonNegative(info *types.Info, e ast.Expr, strict bool) bool {
+	if v, ok := constInt(info, e); ok {
+		return v >= 0 || (strict && v >= -1)
+	}
+	inner := stripConv(info, e)
+	if t := info.TypeOf(inner); t != nil {
+		if b, ok := t.Underlying().(*types.Basic); ok && b.Info()&types.IsUnsigned != 0 {
+			return true
+		}
+	}
+	return false
 }
